@@ -1,0 +1,43 @@
+//go:build verif
+
+package forward
+
+import (
+	"net"
+
+	"github.com/miekg/dns"
+)
+
+// Verification hooks for property C06 (a message is interpreted from its own
+// bytes only).  Add-only; compiled only with the build tag "verif".
+
+// VerifC06BufSize returns the size of the pooled read buffers for network.
+func VerifC06BufSize(network Network) (n int) {
+	if network == NetworkTCP {
+		return tcpBufSize
+	}
+
+	return udpBufSize
+}
+
+// VerifC06ReadMsg calls the unexported readMsg of u with the given buffer.
+func VerifC06ReadMsg(
+	u *UpstreamPlain,
+	network Network,
+	conn net.Conn,
+	buf []byte,
+) (resp *dns.Msg, err error) {
+	return u.readMsg(network, conn, buf)
+}
+
+// VerifC06ReadValidMsg calls the unexported readValidMsg of u with the given
+// buffer.
+func VerifC06ReadValidMsg(
+	u *UpstreamPlain,
+	req *dns.Msg,
+	network Network,
+	conn net.Conn,
+	buf []byte,
+) (resp *dns.Msg, err error) {
+	return u.readValidMsg(req, network, conn, buf)
+}
